@@ -55,6 +55,21 @@ def handleStlRound (ws : List String) : Option String := do
       | .error _ => "error"
     some (showHex bytes ++ " " ++ dec)
 
+/-- `stlw <file bytes, hex> <n> {12 float32 bits} ft…` : ASCII STL text to the specification whose tokens are
+separated by arbitrary non-empty runs of spaces and tabs (leading / trailing white space allowed).  The file must
+be white-space-equivalent to the single-space text `stlAsciiSpec` (same `fields`), else `bad-op`; the answer is
+the STL reader model (tokenising with `fields` = `strings.Fields`) on the given bytes. -/
+def handleStlWs (ws : List String) : Option String := do
+  let (bytes, ts, tb) ← run (do
+    let b ← pBytes; let ts ← pCounted (pMany pHex32 12); let tb ← pTables; pure (b, ts, tb)) ws
+  let spec := stlAsciiSpec tb.floatText.fmt32 ts
+  if fields bytes ≠ fields spec then none
+  else
+    let dec := match stlDecode tb.pf32 bytes with
+      | .ok rs => showRecs32 rs
+      | .error _ => "error"
+    some dec
+
 /-! ### STL from a reader that delivers the file in pieces (kind `stlc`) -/
 
 /-- `<reps>x<size>` -/
@@ -345,6 +360,7 @@ def dispatch (ws : List String) : Option String :=
   | "stla" :: rest => handleStlAscii rest
   | "stlr" :: rest => handleStlRound rest
   | "stlc" :: rest => handleStlChunked rest
+  | "stlw" :: rest => handleStlWs rest
   | "plys" :: rest => handlePlyStream rest
   | "plym" :: rest => handlePlyMesh rest
   | "csv" :: rest => handleCsv rest
